@@ -52,9 +52,12 @@ def _exec_lines(path):
     stack = [code]
     while stack:
         c = stack.pop()
-        for _, _, ln in c.co_lines():
-            if ln:
-                lines.add(ln)
+        # function bodies only: module and class bodies run at import, before the listener starts, and the
+        # RESUME line of a function (its def / decorator line) raises no LINE event
+        if c.co_flags & 0x1:
+            for _, _, ln in c.co_lines():
+                if ln and ln != c.co_firstlineno:
+                    lines.add(ln)
         for k in c.co_consts:
             if hasattr(k, "co_lines"):
                 stack.append(k)
@@ -103,6 +106,17 @@ class LineCov:
         return {rel: sorted(s) for rel, s in self.hit.items()}
 
 
+def _ranges(lines):
+    out, i = [], 0
+    while i < len(lines):
+        j = i
+        while j + 1 < len(lines) and lines[j + 1] == lines[j] + 1:
+            j += 1
+        out.append(str(lines[i]) if i == j else f"{lines[i]}-{lines[j]}")
+        i = j + 1
+    return ",".join(out)
+
+
 def summarize(repo_root, anchors, hits):
     """hits: {rel: set(lines)} -> per mechanism executed/executable line counts."""
     per_mech = {}
@@ -113,8 +127,11 @@ def summarize(repo_root, anchors, hits):
         per_file[rel] = {"executable": len(ex), "executed": len(ex & h)}
         for lo, hi, name in ranges:
             rng = {l for l in ex if lo <= l <= hi}
-            d = per_mech.setdefault(name, {"executable": 0, "executed": 0, "where": []})
+            d = per_mech.setdefault(name, {"executable": 0, "executed": 0, "where": [], "unexecuted": []})
             d["executable"] += len(rng)
             d["executed"] += len(rng & h)
             d["where"].append(f"{rel}:{lo}-{hi}")
+            miss = _ranges(sorted(rng - h))
+            if miss:
+                d["unexecuted"].append(f"{rel}:{miss}")
     return {"files": per_file, "mechanisms": per_mech}
